@@ -790,4 +790,65 @@ theorem overflow_coincide_inframe_buf (ctx : Ctx) (he : ctx.start = ctx.stop)
 example : Ctx.v0.start = Ctx.v0.stop ∧ (feed Ctx.v0 (Recv.init 3) [0xAC#8, 0x55#8]).1.state = .s1 ∧
     (feed Ctx.v0 (Recv.init 3) [0xAC#8, 0x55#8]).1.line ≠ [] := by decide +kernel
 
+/-! ### round 3b: `cstr()` / `sline_getline` at capacity 0 (was "Still open") -/
+
+/-- `recv_trace_never_faults` for EVERY declared capacity, 0 included: the trace the driver computes on the
+buffer-level model, with `cstr()` at every NEWPACKAGE, never faults and is the list-level trace.  (The model
+of `sline_getline` now has the guard `if (sl->cap)` of the repaired code.) -/
+theorem recv_trace_never_faults_any_cap (ctx : Ctx) (buf : List Byte) (cap : BitVec 32)
+    (hblk : cap.toNat ≤ buf.length) (bs : List Byte) :
+    bfeedTrace ctx (BRecv.init buf cap) bs = some (feedTrace ctx (Recv.init cap.toNat) bs) := by
+  have hok : SlineOK (BRecv.init buf cap).line := ⟨rfl, hblk, by simp [BRecv.init, Sline.init]⟩
+  have habs : (BRecv.init buf cap).abs = Recv.init cap.toNat := by
+    simp [BRecv.abs, BRecv.init, Sline.init, Sline.bytes, Recv.init]
+  rw [← habs]
+  exact bfeedTrace_eq_any ctx _ hok bs
+
+/-- the legacy receiver alike -/
+theorem legacy_trace_never_faults_any_cap (buf : List Byte) (cap : BitVec 32)
+    (hblk : cap.toNat ≤ buf.length) (bs : List Byte) :
+    blfeedTrace (BLRecv.init buf cap) bs = some (lfeedTrace (LRecv.init cap.toNat) bs) := by
+  have hok : SlineOK (BLRecv.init buf cap).line := ⟨rfl, hblk, by simp [BLRecv.init, Sline.init]⟩
+  have habs : (BLRecv.init buf cap).abs = LRecv.init cap.toNat := by
+    simp [BLRecv.abs, BLRecv.init, Sline.init, Sline.bytes, LRecv.init]
+  rw [← habs]
+  exact blfeedTrace_eq_any _ hok bs
+
+/-- `cstr()` called AT ANY TIME (not only after NEWPACKAGE), after any stream, at any capacity, and on the
+receiver that never got a buffer (`gstuff_autorecv(ctx)`: NULL, capacity 0): it does not fault and hands over
+the bytes of the list-level line; with capacity 0 it stores nothing (the receiver object, its block included,
+is unchanged) and the line is empty. -/
+theorem cstr_any_time (ctx : Ctx) (buf : List Byte) (cap : BitVec 32)
+    (hblk : cap.toNat ≤ buf.length) (bs : List Byte) :
+    ∃ r' r'' sts, bfeed ctx (BRecv.init buf cap) bs = some (r', sts) ∧
+      r'.cstr = some (r'', (feed ctx (Recv.init cap.toNat) bs).1.line) ∧
+      (cap = 0 → r'' = r' ∧ (feed ctx (Recv.init cap.toNat) bs).1.line = []) := by
+  obtain ⟨r', e1, e2, _, e4, e5, _, _⟩ := recv_never_faults ctx buf cap hblk bs
+  have hok : SlineOK (BRecv.init buf cap).line := ⟨rfl, hblk, by simp [BRecv.init, Sline.init]⟩
+  obtain ⟨_, f1, _, f3, _⟩ := bfeed_refines ctx (BRecv.init buf cap) hok bs
+  rw [e1] at f1
+  obtain rfl : r' = _ := (Prod.mk.inj (Option.some.inj f1)).1
+  obtain ⟨r2, g1, g2, _, g4⟩ := cstr_ok_any r' f3
+  refine ⟨r', r2, _, e1, by rw [g1, e2], ?_⟩
+  intro h0
+  refine ⟨g4 (by rw [e5, h0]), ?_⟩
+  have hb := (recv_bounds ctx cap.toNat bs).1
+  have h00 : cap.toNat - 1 = 0 := by rw [h0]; rfl
+  rw [h00] at hb
+  exact List.eq_nil_of_length_eq_zero (by omega)
+
+theorem cstr_nobuf_any_time (ctx : Ctx) (bs : List Byte) :
+    ∃ r' sts, bfeed ctx BRecv.noBuf bs = some (r', sts) ∧ r'.cstr = some (r', []) := by
+  obtain ⟨r', e1, e2, e3⟩ := recv_nobuf_never_faults ctx bs
+  have hok : SlineOK BRecv.noBuf.line := ⟨rfl, by simp [BRecv.noBuf], by simp [BRecv.noBuf]⟩
+  obtain ⟨r1, f1, _, f3, f4, _⟩ := bfeed_refines ctx BRecv.noBuf hok bs
+  rw [e1] at f1
+  obtain rfl : r' = r1 := (Prod.mk.inj (Option.some.inj f1)).1
+  refine ⟨r', _, e1, ?_⟩
+  have hc : r'.line.cap = 0 := by rw [f4]; rfl
+  simp [BRecv.cstr, Sline.getline, hc, e2]
+
+-- non-vacuity: capacity 0 on an empty block
+example : (0#32).toNat ≤ ([] : List Byte).length := by decide
+
 end Igris.Gstuff
